@@ -25,7 +25,7 @@ type Op struct {
 	Kind    string `json:"kind"` // absorb | squeeze | clone | reset | copystate | bad-absorb | bad-squeeze
 	H       int    `json:"h"`    // handle (taken modulo the number of live handles)
 	Blocks  int    `json:"blocks,omitempty"`
-	Pattern string `json:"pattern,omitempty"` // random | zero | plus | minus | same | onediff
+	Pattern string `json:"pattern,omitempty"` // random | zero | plus | minus | same | onediff | aliased | overlap
 	Seed    uint64 `json:"seed,omitempty"`
 	Bad     string `json:"bad,omitempty"` // empty | toomany | length
 	Dst     string `json:"dst,omitempty"` // squeeze: what the caller puts into dst - "" (nil entries) | carved | reuse
@@ -66,6 +66,9 @@ type handle struct {
 	probes  map[string]int
 	faults  map[string]int
 	changes int
+
+	mayPanic bool // the call in progress is outside the contract and may panic
+	dead     bool // it did: the instance is in no defined state any more
 }
 
 type opMsg struct {
@@ -106,6 +109,7 @@ const inboxCap = 1024
 // ack is what an actor tells the root after an operation — by value, through a channel, inside a hidden region.
 type ack struct {
 	violated bool
+	stop     bool // the history ends here without a verdict (a call outside the contract panicked, as it may)
 	inbox    chan opMsg // non-nil: a clone was created and its actor started
 	state    *handle    // not dereferenced by the root before the actor has exited
 }
@@ -145,6 +149,24 @@ func genTrits(pattern string, seed uint64, m, n int) []trinary.Trits {
 				p := rnd.IntN(n)
 				out[j][p] = (out[j][p]+2)%3 - 1
 			}
+		}
+	case "aliased":
+		// the very same slice for every lane: legal input, every lane's "input alone" is that one sequence
+		base := make(trinary.Trits, n)
+		for i := range base {
+			base[i] = rt()
+		}
+		for j := range out {
+			out[j] = base
+		}
+	case "overlap":
+		// windows into one flat buffer, lane j starting j trits in: the lanes overlap in memory and all differ
+		flat := make(trinary.Trits, n+m)
+		for i := range flat {
+			flat[i] = rt()
+		}
+		for j := range out {
+			out[j] = flat[j : j+n : j+n]
 		}
 	default:
 		for j := range out {
@@ -236,6 +258,14 @@ func (hd *handle) loop(acks chan ack, exits chan *handle) {
 		func() {
 			defer func() {
 				if p := recover(); p != nil {
+					if hd.mayPanic {
+						// a batch outside the contract (lanes of unequal length): the property promises nothing about a
+						// panic, and nothing about the instance afterwards — the history ends here
+						hd.mayPanic, a.stop = false, true
+						hd.faults["ragged_batch_panicked"]++
+						hd.dead = true
+						return
+					}
 					m := fmt.Sprintf("%v", p)
 					hd.violate("panic:"+m, fmt.Sprintf("op %d %+v: %s\n%s", msg.index, msg.op, m, debug.Stack()))
 				}
@@ -249,9 +279,10 @@ func (hd *handle) loop(acks chan ack, exits chan *handle) {
 			}
 		}()
 		a.violated = hd.class != ""
+		a.stop = a.stop || hd.dead
 		kernel.Hidden(func() { acks <- a })
 	}
-	if hd.class == "" && hd.outputIntact(-1) {
+	if hd.class == "" && !hd.dead && hd.outputIntact(-1) {
 		hd.check(-1, " (end of the history)")
 	}
 	exits <- hd // visible: the root may read the actor's memory after this
@@ -295,7 +326,7 @@ func Run(cfg *Config) proto.End {
 			var b ack
 			kernel.Hidden(func() { b = <-acks })
 			byOps++
-			if b.violated {
+			if b.violated || b.stop {
 				break
 			}
 		}
@@ -303,7 +334,7 @@ func Run(cfg *Config) proto.End {
 		inboxes[idx] <- opMsg{index: i, op: op, idx: idx, live: len(inboxes)}
 		var a ack
 		kernel.Hidden(func() { a = <-acks })
-		if a.violated {
+		if a.violated || a.stop {
 			break
 		}
 		// no operation may disturb another handle: every other live handle compares itself with its model now
@@ -453,8 +484,14 @@ func (hd *handle) step(msg opMsg) (clone *handle) {
 			hd.violate("wrong-error", fmt.Sprintf("%s: valid Absorb of %d lanes x %d trits returned %q", where(), hd.m, n, err))
 			return
 		}
+		// the model absorbs its own copy of the input, generated separately: whatever the call did to the caller's
+		// slices cannot reach the reference
+		model := genTrits(op.Pattern, op.Seed, hd.m, n)
 		for j := 0; j < hd.m; j++ {
-			hd.lanes[j].Absorb(src[j])
+			hd.lanes[j].Absorb(model[j])
+		}
+		if op.Pattern == "aliased" || op.Pattern == "overlap" {
+			hd.probes["absorb_lanes_sharing_memory"] = 1
 		}
 		// the caller reuses its input buffers: whatever Absorb needed from src it must have taken by now
 		for j := range src {
@@ -552,6 +589,38 @@ func (hd *handle) step(msg opMsg) (clone *handle) {
 		lanes, cnt := hd.m, n
 		var want error
 		switch op.Bad {
+		case "ragged":
+			// one lane (not the first) is a block short, with no spare capacity: outside the contract ("equally long"),
+			// so a panic is acceptable and ends the history; but if the call chooses to REJECT the batch with an error,
+			// the rejection must leave the state untouched like any other
+			if op.Kind != "bad-absorb" || hd.m < 2 || hd.squeezing || hd.m > bits.UintSize {
+				return
+			}
+			if cnt == 0 {
+				cnt = ref.HashLen
+			}
+			src := genTrits("random", op.Seed, hd.m, cnt)
+			short := 1 + int((op.Seed>>8)%uint64(hd.m-1))
+			src[short] = append(trinary.Trits{}, src[short][:cnt-ref.HashLen]...)
+			hd.mayPanic = true
+			err := hd.real.Absorb(src, cnt)
+			hd.mayPanic = false
+			hd.faults["rejected_call_ragged"]++
+			if err == nil {
+				hd.dead = true // accepted something undefined: no verdict, no further use of this instance
+				return
+			}
+			al, ah := state(hd.real)
+			for p := range al {
+				if al[p] != bl[p] || ah[p] != bh[p] {
+					hd.violate("state-changed-by-rejected-call", fmt.Sprintf("%s (ragged: lane %d of %d is one block short of %d trits): the call was rejected with %q but state word %d changed from (%#x,%#x) to (%#x,%#x)", where(), short, hd.m, cnt, err, p, bl[p], bh[p], al[p], ah[p]))
+					return
+				}
+			}
+			e.extra = op.Bad
+			hd.log = append(hd.log, e)
+			hd.check(i, "")
+			return nil
 		case "empty":
 			lanes, want = 0, consts.ErrInvalidBatchSize
 		case "toomany":
@@ -626,7 +695,7 @@ func Gen(seed uint64, tier string) *Config {
 		n = 20 + r.IntN(30)
 		c.M = 1 + r.IntN(3)
 	}
-	patterns := []string{"random", "random", "random", "zero", "plus", "minus", "same", "onediff"}
+	patterns := []string{"random", "random", "random", "zero", "plus", "minus", "same", "onediff", "aliased", "overlap"}
 	sq := []bool{false} // the generator tracks which handles are squeezing, to respect the sponge discipline
 	for len(c.Ops) < n {
 		h := r.IntN(len(sq))
@@ -681,7 +750,7 @@ func Gen(seed uint64, tier string) *Config {
 		case x < 83:
 			o.Kind = "copystate"
 		case x < 92 && !sq[h]:
-			o.Kind, o.Bad, o.Blocks = "bad-absorb", []string{"empty", "toomany", "length"}[r.IntN(3)], r.IntN(3)
+			o.Kind, o.Bad, o.Blocks = "bad-absorb", []string{"empty", "toomany", "length", "ragged"}[r.IntN(4)], r.IntN(3)
 		default:
 			o.Kind, o.Bad, o.Blocks = "bad-squeeze", []string{"empty", "toomany", "length"}[r.IntN(3)], r.IntN(3)
 		}
